@@ -21,7 +21,8 @@ class C04(c01.C01):
                          'sector_ledger_not_sum_of_declared_flows.judged', 'asset_demands_do_not_add_up_to_wealth.judged',
                          'models.judged.with_portfolio_rule_object_shared_by_households',
                          'models.judged.with_prefix_related_market_codes_and_household_in_both',
-                         'models.judged.with_three_asset_portfolio')
+                         'models.judged.with_three_asset_portfolio',
+                         'models.judged.with_households_buying_in_another_regions_market')
     which = ('markets', 'ledger')
 
     def make_case(self, rng, idx, tier):
